@@ -4,10 +4,12 @@ from .facts import AnalysisBroken, kids, short, walk
 
 
 class Path:
-    __slots__ = ('conds', 'stmts', 'end', 'endnode')
+    __slots__ = ('conds', 'stmts', 'end', 'endnode', 'seq')
 
-    def __init__(self, conds=(), stmts=(), end=None, endnode=None):
+    def __init__(self, conds=(), stmts=(), end=None, endnode=None, seq=None):
         self.conds, self.stmts, self.end, self.endnode = tuple(conds), tuple(stmts), end, endnode
+        # the decisions and statements of the path in the order they happen: (('c', cond) | ('s', stmt), ...)
+        self.seq = tuple(seq) if seq is not None else tuple(('c', c) for c in self.conds) + tuple(('s', x) for x in self.stmts)
 
     def live(self, env):
         """the statements of the path that do something: no assert expansions, no declarations of locals that are only names for their initialiser
@@ -24,7 +26,8 @@ class Path:
         return out
 
     def ext(self, cond=None, stmt=None):
-        return Path(self.conds + ((cond,) if cond is not None else ()), self.stmts + ((stmt,) if stmt is not None else ()))
+        return Path(self.conds + ((cond,) if cond is not None else ()), self.stmts + ((stmt,) if stmt is not None else ()),
+                    seq=self.seq + ((('c', cond),) if cond is not None else ()) + ((('s', stmt),) if stmt is not None else ()))
 
 
 def _unwrap_labels(s):
@@ -165,30 +168,42 @@ def eq_term(e, k):
 
 
 def value_literals(conds):
-    """conds: [('if', term, pol) | ('switch', term, labels)] with canonical terms (polarity-normalised: no leading `!`, no `!=`).  Returns the same path
-    condition with every test of a value against constants spelled as literals `(== e K)`: a switch arm with one label is the positive literal, the
-    default arm / no-match exit the negative literals of all the cases; a positive literal makes the negative ones on the same value redundant; negative
-    literals that leave one enumerator only are that positive literal.  None when the path cannot be taken (every enumerator excluded)."""
+    """conds: [('if', term, pol) | ('switch', term, labels) | ('stmt',)] with canonical terms (polarity-normalised: no leading `!`, no `!=`), ('stmt',) marking a
+    statement of the path that does something between two decisions.  Returns the path condition (markers dropped) with every test of a value against
+    constants spelled as literals `(== e K)`: a switch arm with one label is the positive literal, the default arm / no-match exit the negative literals
+    of all the cases.  Among the tests of one value that no statement separates: a positive literal makes the negative ones redundant; negative literals
+    that leave one enumerator only are that positive literal; contradicting literals (two different constants, every enumerator excluded) mean that the
+    path cannot be taken: None."""
     out = []
+    epoch = 0
     for c in conds:
+        if c[0] == 'stmt':
+            epoch += 1
+            continue
         if c[0] == 'switch':
             labs = c[2]
             if len(labs) == 1 and labs[0][0] == 'case':
-                out.append(('if', eq_term(c[1], label_term(labs[0][1:3])), True))
+                out.append((('if', eq_term(c[1], label_term(labs[0][1:3])), True), epoch))
                 continue
             if labs and all(l[0] in ('default', 'nomatch') for l in labs) and len(labs[0]) > 3:
                 for l in labs[0][3]:
-                    out.append(('if', eq_term(c[1], label_term(l)), False))
+                    out.append((('if', eq_term(c[1], label_term(l)), False), epoch))
                 continue
-        out.append(c)
+        out.append((c, epoch))
     pos, neg = {}, {}
-    for c in out:
+    for c, ep in out:
         if c[0] == 'if':
             ek = eq_test(c[1])
             if ek is not None:
-                (pos if c[2] else neg).setdefault(ek[0], []).append(ek[1])
-    for e, ks in neg.items():
-        if e in pos:
+                (pos if c[2] else neg).setdefault((repr(ek[0]), ep), []).append(ek[1])
+    for key, ks in pos.items():
+        if len(set(map(repr, ks))) > 1:
+            return None                 # one value, two different constants
+        if any(repr(k) == repr(ks[0]) for k in neg.get(key, ())):
+            return None                 # e == K and e != K
+    promote = {}
+    for key, ks in neg.items():
+        if key in pos:
             continue
         dom = None
         for k in ks:
@@ -199,31 +214,26 @@ def value_literals(conds):
             if not rem:
                 return None
             if len(rem) == 1:
-                pos[e] = [rem[0]]
-                # the positive literal takes the place of the first negative one
-                first = True
-                o2 = []
-                for c in out:
-                    ek = eq_test(c[1]) if c[0] == 'if' else None
-                    if ek is not None and ek[0] == e and not c[2]:
-                        if first:
-                            o2.append(('if', eq_term(e, rem[0]), True))
-                            first = False
-                        continue
-                    o2.append(c)
-                out = o2
+                promote[key] = rem[0]
     res = []
     seen = set()
-    for c in out:
+    promoted = set()
+    for c, ep in out:
         if c[0] == 'if':
             ek = eq_test(c[1])
             if ek is not None:
                 e, k = ek
-                if not c[2] and e in pos and len(set(map(repr, pos[e]))) == 1 and repr(pos[e][0]) != repr(k):
+                key = (repr(e), ep)
+                if not c[2] and key in pos:
                     continue        # implied by the positive literal on the same value
-                if (repr(c[1]), c[2]) in seen:
+                if not c[2] and key in promote:
+                    if key in promoted:
+                        continue
+                    promoted.add(key)
+                    c = ('if', eq_term(e, promote[key]), True)
+                if (repr(c[1]), c[2], ep) in seen:
                     continue
-                seen.add((repr(c[1]), c[2]))
+                seen.add((repr(c[1]), c[2], ep))
         res.append(c)
     return res
 
@@ -245,10 +255,28 @@ def norm_literal(t, pol):
     return t, pol
 
 
+def _separates(st):
+    """does this statement of a path do something (so that a value tested before it and after it may differ)?"""
+    if st.get('as') or st.get('k') == 'NullStmt':
+        return False
+    if st.get('k') == 'DeclStmt':
+        from .normalize import _impure
+        return any(d.get('k') == 'VarDecl' and isinstance(d.get('init'), dict) and _impure(d['init']) for d in st.get('c') or ())
+    return True
+
+
 def path_literals(conds, term):
-    """the conditions of a path (as enum_paths gives them) as value literals over canonical terms; term(node) -> canonical term.  None: not a path."""
+    """the conditions of a path (a Path of enum_paths, or its conds) as value literals over canonical terms; term(node) -> canonical term.  None: not a path."""
     cs = []
-    for c in conds:
+    if isinstance(conds, Path):
+        seq = conds.seq
+    else:
+        seq = [('c', c) for c in conds]
+    for kind, c in seq:
+        if kind == 's':
+            if _separates(c):
+                cs.append(('stmt',))
+            continue
         if c[0] == 'if':
             t, pol = norm_literal(term(c[1]), c[2])
             cs.append(('if', t, pol))
@@ -288,7 +316,7 @@ def enum_paths(stmt, limit=4000):
     steps.  Returns a list of Path with end in {'return','throw','fall','break','continue'}."""
 
     def join(p, q):
-        return Path(p.conds + q.conds, p.stmts + q.stmts, q.end, q.endnode)
+        return Path(p.conds + q.conds, p.stmts + q.stmts, q.end, q.endnode, seq=p.seq + q.seq)
 
     def seq(stmts):
         cur = [Path(end='fall')]
@@ -326,7 +354,8 @@ def enum_paths(stmt, limit=4000):
                     r = dict(s)
                     r['c'] = [arm]
                     for q in paths(r):
-                        out.append(Path(tuple(('if', n, pol) for n, pol in atoms) + q.conds, q.stmts, q.end, q.endnode))
+                        cs = tuple(('if', n, pol) for n, pol in atoms)
+                        out.append(Path(cs + q.conds, q.stmts, q.end, q.endnode, seq=tuple(('c', c) for c in cs) + q.seq))
                 return out
             return [Path((), (s,), 'return', s)]
         if kind == 'CXXThrowExpr':
@@ -344,7 +373,8 @@ def enum_paths(stmt, limit=4000):
             # `if (a) { if (b) X else Y } else Y`, `if (!(a && b)) Y else X` and the early-exit forms all yield the same set of paths
             for atoms, outcome in decisions(sl.get('cond')):
                 for q in sub[outcome]:
-                    out.append(Path(tuple(('if', n, pol) for n, pol in atoms) + q.conds, pre + q.stmts, q.end, q.endnode))
+                    cs = tuple(('if', n, pol) for n, pol in atoms)
+                    out.append(Path(cs + q.conds, pre + q.stmts, q.end, q.endnode, seq=tuple(('s', x) for x in pre) + tuple(('c', c) for c in cs) + q.seq))
             return out
         if kind == 'SwitchStmt':
             arms = switch_arms(s)
@@ -358,7 +388,8 @@ def enum_paths(stmt, limit=4000):
                 labels = [l if l[0] == 'case' else (l[0], None, None, allcases) for l in labels]
                 for q in seq([st for _, st in arms[i:]]):
                     end = 'fall' if q.end == 'break' else q.end
-                    out.append(Path((('switch', cond, tuple(labels)),) + q.conds, q.stmts, end, q.endnode))
+                    c0 = ('switch', cond, tuple(labels))
+                    out.append(Path((c0,) + q.conds, q.stmts, end, q.endnode, seq=(('c', c0),) + q.seq))
             if not has_default:
                 out.append(Path((('switch', cond, (('nomatch', None, None, allcases),)),), (), 'fall', None))
             return out
